@@ -46,7 +46,7 @@ func genCounter(rt *rapid.T, name string) int32 {
 }
 
 func TestC20Metrics(t *testing.T) {
-	rec := evid.New("TestC20Metrics", "C20", "random ExtendedDaemonSet / replica-set status (counters, canary block, state, conditions) fed to every metric family generator; non-trivial = a canary block, a true condition or a paused/frozen state is present; distinct by rendered status")
+	rec := evid.New("TestC20Metrics", "C20", "random ExtendedDaemonSet / replica-set status (counters, canary block, state, conditions) fed to every metric family generator, all families of both objects generated before any series is read (as the metrics store composes them); non-trivial = a canary block, a true condition or a paused/frozen state is present; distinct by rendered status")
 	t.Cleanup(func() {
 		if !t.Failed() {
 			rec.Done()
@@ -122,45 +122,53 @@ func TestC20Metrics(t *testing.T) {
 			"eds_status_rollout_frozen":             b2f(st.State == edsv1.ExtendedDaemonSetStatusStateRolloutFrozen),
 			"eds_labels":                            1,
 		}
-		seen := map[string]bool{}
-		for _, fg := range edsFams {
-			s, err := oneSeries(fg.Generate(eds.DeepCopy()))
-			if err != nil {
-				fail(rt, "C20/metrics/eds/shape/"+fg.Name, err.Error(), eds)
-			}
-			seen[fg.Name] = true
-			w, ok := want[fg.Name]
-			if !ok {
-				continue // a family this oracle does not know is not judged
-			}
-			if s.Value != w {
-				fail(rt, "C20/metrics/eds/value/"+fg.Name, fmt.Sprintf("%s = %v, status says %v (status %+v)", fg.Name, s.Value, w, eds.Status), eds)
-			}
-			if s.Labels["namespace"] != eds.Namespace || s.Labels["name"] != eds.Name {
-				fail(rt, "C20/metrics/eds/identity/"+fg.Name, fmt.Sprintf("%s labels %v do not identify %s/%s", fg.Name, s.Labels, eds.Namespace, eds.Name), eds)
-			}
-			switch fg.Name {
-			case "eds_status_canary_activated":
-				rs := ""
-				if st.Canary != nil {
-					rs = st.Canary.ReplicaSet
-				}
-				if s.Labels["replicaset"] != rs {
-					fail(rt, "C20/metrics/eds/canary-replicaset-label", fmt.Sprintf("replicaset label %q, status says %q", s.Labels["replicaset"], rs), eds)
-				}
-			case "eds_status_canary_paused":
-				if st.Canary != nil && pausedTrue && s.Labels["paused_reason"] != pausedReason {
-					fail(rt, "C20/metrics/eds/paused-reason-label", fmt.Sprintf("paused_reason label %q, condition says %q", s.Labels["paused_reason"], pausedReason), eds)
-				}
-			case "eds_labels":
-				if sig, detail := checkSeriesInfoLabels(s, eds.Labels); sig != "" {
-					fail(rt, sig, detail, eds)
-				}
-			}
+		// as the metrics store does (ComposeMetricGenFuncs): every family of the object is generated first, the series are
+		// read afterwards - and, below, only after the replica set's families were generated too
+		edsGen := make([]*ksmetric.Family, len(edsFams))
+		for i, fg := range edsFams {
+			edsGen[i] = fg.Generate(eds.DeepCopy())
 		}
-		for name := range want {
-			if !seen[name] {
-				fail(rt, "C20/metrics/eds/missing/"+name, "family not generated: "+name, eds)
+		inspectEDS := func() {
+			seen := map[string]bool{}
+			for i, fg := range edsFams {
+				s, err := oneSeries(edsGen[i])
+				if err != nil {
+					fail(rt, "C20/metrics/eds/shape/"+fg.Name, err.Error(), eds)
+				}
+				seen[fg.Name] = true
+				w, ok := want[fg.Name]
+				if !ok {
+					continue // a family this oracle does not know is not judged
+				}
+				if s.Value != w {
+					fail(rt, "C20/metrics/eds/value/"+fg.Name, fmt.Sprintf("%s = %v, status says %v (status %+v)", fg.Name, s.Value, w, eds.Status), eds)
+				}
+				if s.Labels["namespace"] != eds.Namespace || s.Labels["name"] != eds.Name {
+					fail(rt, "C20/metrics/eds/identity/"+fg.Name, fmt.Sprintf("%s labels %v do not identify %s/%s", fg.Name, s.Labels, eds.Namespace, eds.Name), eds)
+				}
+				switch fg.Name {
+				case "eds_status_canary_activated":
+					rs := ""
+					if st.Canary != nil {
+						rs = st.Canary.ReplicaSet
+					}
+					if s.Labels["replicaset"] != rs {
+						fail(rt, "C20/metrics/eds/canary-replicaset-label", fmt.Sprintf("replicaset label %q, status says %q", s.Labels["replicaset"], rs), eds)
+					}
+				case "eds_status_canary_paused":
+					if st.Canary != nil && pausedTrue && s.Labels["paused_reason"] != pausedReason {
+						fail(rt, "C20/metrics/eds/paused-reason-label", fmt.Sprintf("paused_reason label %q, condition says %q", s.Labels["paused_reason"], pausedReason), eds)
+					}
+				case "eds_labels":
+					if sig, detail := checkSeriesInfoLabels(s, eds.Labels); sig != "" {
+						fail(rt, sig, detail, eds)
+					}
+				}
+			}
+			for name := range want {
+				if !seen[name] {
+					fail(rt, "C20/metrics/eds/missing/"+name, "family not generated: "+name, eds)
+				}
 			}
 		}
 
@@ -191,9 +199,14 @@ func TestC20Metrics(t *testing.T) {
 			"ers_status_canary_failed":              b2f(failedTrue),
 			"ers_labels":                            1,
 		}
-		seen = map[string]bool{}
-		for _, fg := range ersFams {
-			s, err := oneSeries(fg.Generate(ers.DeepCopy()))
+		ersGen := make([]*ksmetric.Family, len(ersFams))
+		for i, fg := range ersFams {
+			ersGen[i] = fg.Generate(ers.DeepCopy())
+		}
+		inspectEDS()
+		seen := map[string]bool{}
+		for i, fg := range ersFams {
+			s, err := oneSeries(ersGen[i])
 			if err != nil {
 				fail(rt, "C20/metrics/ers/shape/"+fg.Name, err.Error(), ers)
 			}
